@@ -165,11 +165,50 @@ class ByAnchor:
     opts = dict(SEG_INV, yields=NC)
 
 
-@contract(PR + "_get_nodes_by_search", props=["C15", "C12"])
+SM = "Searches.search_matches(method, term, %s)"
+
+
+@contract(PR + "_get_nodes_by_search", props=["C15", "C12", "C01", "C02"])
 class BySearch:
+    """SEARCH segment `[attr OP term]`, functionally, for the non-descendant forms:
+    * over a hash with attr `.`: one iteration per key, each yielding the child under that key exactly when
+      search_matches(method, term, key) differs from `inverted` -- and nothing is yielded outside that loop, so the
+      result is the keys' filter in document order and the inverted search is its complement;
+    * over a set: the same per member; over a sequence: per element, the decision being the iteration's `matches`
+      (for attr `.` on a non-record element, and for a record holding attr, that is search_matches of the element /
+      of its attr value);
+    * over a hash holding attr: that one child, exactly when its value matches (xor inverted);
+    * over a scalar: the node itself, exactly when it matches (xor inverted).
+    Each yielded NodeCoords is well-formed (C02 wf_step).  search_matches is the deterministic call-site face of
+    contracts/c12 (an uninterpreted function of its three arguments here; its own body is verified there).
+    Descendant searches (attr is a sub-path) carry the safety clauses only."""
     params = dict(KWP, terms="SearchTerms", kw_traverse_lists="bool")
     assume_fields = {"terms._inverted": "bool", "terms._method": "PathSearchMethods", "terms._attribute": "str", "terms._term": "str"}
     raises = ["YAMLPathException"]
+    ensures = [
+        "implies(isinstance(data, dict) and not isinstance(data, list) and attr == '.', looped('for key, val in data.items()'))",
+        "implies(isinstance(data, list) and traverse_lists, looped('for lstidx, ele in enumerate(data)'))",
+        "implies(isinstance(data, list) and not traverse_lists, len(out) == 0)",
+        "implies(isinstance(data, (CommentedSet, set)) and not isinstance(data, (list, dict)), looped('for ele in data'))",
+        "implies(isinstance(data, dict) and not isinstance(data, list) and attr != '.' and attr in data,"
+        " len(out) <= 1 and (len(out) == 1) == xor(%s, invert))" % (SM % "data[attr]"),
+        "implies(isinstance(data, dict) and not isinstance(data, list) and attr != '.' and attr in data and len(out) == 1, %s)"
+        % WFO("data[attr]", "data", "attr", ESC.replace("translated_path", "kw_translated_path") % "attr"),
+        "implies(not isinstance(data, (list, dict, CommentedSet, set)), len(out) <= 1 and (len(out) == 1) == xor(%s, invert))" % (SM % "data"),
+        "implies(not isinstance(data, (list, dict, CommentedSet, set)) and len(out) == 1, out[0].node is data and out[0].parent is parent"
+        " and same(out[0].parentref, parentref) and out[0].path is translated_path and out[0].ancestry is ancestry)",
+    ]
+    loops = {
+        "for key, val in data.items()": {"sole_yielder": True, "body_ensures": WFY("val", "data", "key", ESC % "key") + [
+            "(len(yielded) == 1) == xor(%s, invert)" % (SM % "key")]},
+        "for ele in data": {"sole_yielder": True, "body_ensures": WFY("ele", "data", "ele", ESC % "ele") + [
+            "(len(yielded) == 1) == xor(%s, invert)" % (SM % "ele")]},
+        "for lstidx, ele in enumerate(data)": {"sole_yielder": True, "body_ensures": WFY("ele", "data", "lstidx", "'[{}]'.format(lstidx)") + [
+            "(len(yielded) == 1) == xor(matches, invert)",
+            "implies(attr == '.' and not (is_aoh and isinstance(ele, dict) and term in ele), same(matches, %s))" % (SM % "ele"),
+            "implies(attr == '.' and is_aoh and isinstance(ele, dict) and term in ele, matches is True)",
+            "implies(attr != '.' and isinstance(ele, dict) and attr in ele, same(matches, %s))" % (SM % "ele[attr]")]},
+    }
     opts = dict(SEG_INV, yields=NC)
 
 
